@@ -15,14 +15,14 @@ CLAIMED = {
             "fast path's four scanning loops shows every byte it copies verbatim is a byte the general parser leaves "
             "unchanged; path-signature, forbidden host/domain, scheme-character, delimiter and special-scheme tables "
             "(incl. the perfect hash) equal the Standard's sets for all 256 bytes; the parser's state switch is "
-            "exhaustive. The transition logic for every string is a value-level matter and is not decided. Also: the parser's direct failure exits fail under the flag the Standard names (atSignSeen for the empty authority); the transition relation of the state machine (which state can follow which), extracted from the CFG of every instantiation, equals the Standard's, and so does the set of URL components each state sets — the conditions under which each transition is taken remain value-level.",
+            "exhaustive. The transition logic for every string is a value-level matter and is not decided. Also: the parser's direct failure exits fail under the flag the Standard names (atSignSeen for the empty authority); the transition relation of the state machine (which state can follow which), extracted from the CFG of every instantiation, equals the Standard's, and so does the set of URL components each state sets — the conditions under which each transition is taken remain value-level. Shared helpers are decided exhaustively against the Standard: byte predicates over 256 values, dot-segment spellings, drive-letter byte classes, first-'#' / both-ends trimming, fixed spellings per state, the %20 rewrite's control dependence.",
             "table algebra + byte-domain abstract interpretation of scanning loops + CFG state-machine graph",
             "DESIGN.md §5 C01", "partial: table/shortcut agreement only"),
     "C03": ("other",
             "Decides failure atomicity as a path property: a typestate fixpoint over the CFG of each of the 24 setter "
             "bodies (callee effects from summaries of their own CFGs, restores modelled exactly, boolean results "
             "tracked) shows every exit that reports failure is reached with every written field restored. That a "
-            "successful setter produces the Standard's state is value-level and not decided. Also (rule shared with C19): the protocol setter's three state-override refusals and its default-port elision are present in all four copies.",
+            "successful setter produces the Standard's state is value-level and not decided. Also (rule shared with C19): the protocol setter's three state-override refusals and its default-port elision are present in all four copies. Also: each setter normalises its argument as the Standard's API setter does, the empty-value arms of port/search/hash clear the component, and the host setter hands only a non-empty port text to set_port.",
             "typestate dataflow over per-instantiation CFGs with interprocedural summaries",
             "DESIGN.md §5 C03", "partial: the 'fails atomically' sentence"),
     "C04": ("other",
@@ -38,7 +38,7 @@ CLAIMED = {
             "0x21-0x7E except that only the C0 set omits the space, the C0 set is referenced only by the opaque-path "
             "state and parse_opaque_host, the fast path and the domain tables admit printable ASCII only, the "
             "trailing-space rewrite and the four strip_trailing_spaces call sites are present under input.empty(). "
-            "The parse fixed point relates two executions and is not decided.",
+            "The parse fixed point relates two executions and is not decided. Also: both SWAR lower-casing kernels are evaluated lane-wise for all ASCII bytes (exactly A-Z folded), so the cheap and the IDNA route of the host parser lower-case alike.",
             "table algebra + who-references + state-region + must-dataflow queries",
             "DESIGN.md §5 C05", "modulo C11.R3 (each component goes through its own set)"),
     "C12": ("other",
@@ -61,7 +61,7 @@ CLAIMED = {
             "symbolically from the shortcut loops and char_class_table) are subsets of the bytes the parser-based slow "
             "path leaves unchanged, the hostname shortcut is dominated by !is_ipv4, the protocol canonicaliser's byte "
             "classes equal the Standard's, and every component flows through its own field / process_N / "
-            "canonicalize_N / component slot. Equality with the parser-based definition for every value is not decided. Also: each canonicaliser scans and encodes with the one percent-encode set of its component; a scheme's default port is compared only where 0 is told apart; ada::parse inside a canonicaliser receives only the literal dummy URL (the value enters through a setter = state override, or the component's encoder) and the canonicalisers the Standard routes through the basic URL parser remove tab/newline; 'protocol matches a special scheme' enumerates exactly the special schemes.",
+            "canonicalize_N / component slot. Equality with the parser-based definition for every value is not decided. Also: each canonicaliser scans and encodes with the one percent-encode set of its component; a scheme's default port is compared only where 0 is told apart; ada::parse inside a canonicaliser receives only the literal dummy URL (the value enters through a setter = state override, or the component's encoder) and the canonicalisers the Standard routes through the basic URL parser remove tab/newline; 'protocol matches a special scheme' enumerates exactly the special schemes. Also: the port canonicaliser tests five significant digits and 65535.",
             "byte-set semantics + must-dataflow + slot consistency",
             "DESIGN.md §5 C15", "partial"),
     "C07": ("other",
@@ -88,7 +88,7 @@ CLAIMED = {
             "the default-port elision exist and agree in all four copies of parse_scheme<true>; set_host_or_hostname "
             "refusals are present and identical in both types; a port is stored only behind the default-port test / base "
             "copy / snapshot restore; every stored scheme was lower-cased or matched against the lower-case list. The "
-            "invariants of all reachable objects (values) are not decided. Also: no refusal test in the scheme/host/port setters is statically dead; has_opaque_path is set to true only in the parser's opaque path state and otherwise copied from another record or cleared.",
+            "invariants of all reachable objects (values) are not decided. Also: no refusal test in the scheme/host/port setters is statically dead; has_opaque_path is set to true only in the parser's opaque path state and otherwise copied from another record or cleared. Also: the pathname setter changes nothing before its opaque-path refusal.",
             "typestate (guard-before-mutation) + twin-skeleton agreement + who-writes queries + must-dataflow",
             "DESIGN.md §5 C19", "partial"),
     "C02": ("other",
@@ -96,7 +96,7 @@ CLAIMED = {
             "access dominated by its engagement fact (must-dataflow with callee promises); SIMD loads, 8-byte memcpy words, "
             "masked AVX-512 loads and copies into stack arrays inside their buffers by a dominating guard; a lexicographic "
             "ranking for the URL parser's state loop and a progress variant for 132 other loops. Out-of-bounds accesses in "
-            "general, integer overflow, leaks, uninitialised reads and the 41 loops without a recognised variant are not decided.",
+            "general, integer overflow, leaks, uninitialised reads and the loops without a recognised variant are not decided. Also: range-checked accessors behind a range test; look-ahead reads keep their guard; UTF-8 / Hangul sizing agrees with writing; std::regex is entered with unbounded strings (3 sites, known finding F20: stack overflow in libstdc++'s recursive matcher).",
             "must-dataflow of guard facts and of normalised comparison facts over per-function CFGs + natural-loop variant "
             "analysis + state-graph ranking + census queries",
             "DESIGN.md §5 C02", "partial"),
@@ -119,7 +119,7 @@ CLAIMED = {
             "(must-dataflow over the CFG), the failed-handle exit returns the documented default, each wrapper calls "
             "the member of the same name and pairs data()/length() of one object, pointer/length parameters are "
             "paired, allocation/access/free types agree per handle, header (parsed as C) and implementation agree on "
-            "signatures and struct layouts (ada_url_components field by field with ada::url_components). Also: no wrapper returns the address of local, static or thread-local storage or the data() of an owning local string.",
+            "signatures and struct layouts (ada_url_components field by field with ada::url_components). Also: no wrapper returns the address of local, static or thread-local storage or the data() of an owning local string. Also: a wrapper with a scalar result returns the wrapped member's result itself.",
             "must-dataflow of engagement facts + slot-consistency and type-agreement queries over resolved AST facts",
             "DESIGN.md §5 C17", "what remains is the behaviour of the wrapped C++ operations (other properties)"),
     "C08": ("other",
@@ -128,14 +128,14 @@ CLAIMED = {
             "is reachable in the full parser; base handled behind is_valid; the fast validator's accepted host bytes and "
             "its IPv4 deferral heuristic are computed symbolically and compared with the forbidden-domain table and "
             "is_ipv4's early-out. One genuine defect (F3, the 3x shortcut) is reported as a known finding. Equivalence "
-            "of the scanner with the parser on all strings is not decided. Also: a size-checked parse against a base uses a base built by the storing instantiation; the fast validator defers tab/LF/CR in the host and port parts; its Punycode marker (reassembled from its chain of byte comparisons) is no more specific than the literal on which the host parsers leave for the IDNA conversion.",
+            "of the scanner with the parser on all strings is not decided. Also: a size-checked parse against a base uses a base built by the storing instantiation; the fast validator defers tab/LF/CR in the host and port parts; its port check tests the port state's limits; its Punycode marker (reassembled from its chain of byte comparisons) is no more specific than the literal on which the host parsers leave for the IDNA conversion.",
             "return-provenance classification + state-graph reachability + must-dataflow + byte-domain abstract interpretation",
             "DESIGN.md §5 C08", "partial"),
     "C10": ("other",
             "Decides that the host kind is written together with the host on every path of every public entry "
             "(parser, fast path, host setters, parse_host; both URL types) by a typestate fixpoint with callee summaries, "
             "and that the IPv6 serializer keeps the first longest zero run. Found and fixed a genuine defect (host_type "
-            "never reset / not inherited). IPv4/IPv6 arithmetic over all values is not decided. Also: the IPv4 number parser's radix dispatch and per-radix digit sets equal the Standard's; the IPv6 parsers of the two URL types are identical up to storage.",
+            "never reset / not inherited). IPv4/IPv6 arithmetic over all values is not decided. Also: the IPv4 number parser's radix dispatch and per-radix digit sets equal the Standard's; the IPv6 parsers of the two URL types are identical up to storage. Also: numeric limits of the address parsers, the IPv4 fast path, verify_dns_length and the IPv6 serializer as cuts/points of the integer line; required code-point refusals in both host parsers; the overlapping move of the pieces behind '::' counts down.",
             "typestate dataflow (pairing of two effects) with interprocedural summaries + comparison-form rule",
             "DESIGN.md §5 C10", "partial: pairing, not the value of the kind"),
     "C09": ("other",
@@ -150,7 +150,7 @@ CLAIMED = {
             "Exhaustive table proof: each of the seven percent-encode bitmaps is compared with the Standard's set for all "
             "256 byte values, the hex[] table, the decode tables and the hex-digit predicate are checked entry by entry, "
             "every encoder loop has the bit_at/hex/verbatim shape, and each component refers only to its own set. "
-            "Value-level clause (decode inverts encode for every string) is not decided.",
+            "Value-level clause (decode inverts encode for every string) is not decided. Also: decoder arithmetic (look-ahead bound, weight 16, step 3) of both percent-decoders; a set referenced from an extracted helper is attributed to the component functions that call it.",
             "table algebra over clang-evaluated constexpr tables + AST/CFG shape rules + resolved-reference site map",
             "DESIGN.md §5 C11",
             "proof level applies to the R1/R2/R4 table obligations (finite, exhaustive); R3/R5/R6 are shape rules"),
